@@ -64,23 +64,21 @@ def check_uniformlog(ctx):
             ctx.check(R, fn, tag + ": parameters validated (a > 0, a < b)", bool(conds), "check_parameters has no condition", key="logp%d:params" % k, nontrivial=False)
         else:
             ctx.violate(R, fn, tag + ": parameters validated (a > 0, a < b)", "logp is not wrapped in check_parameters", key="logp%d:params" % k)
-        # support
+        # support: switch(inside-test, density, -inf)  or  switch(outside-test, -inf, density); the tests compare `value` itself with both bounds
         inside = None
         if isinstance(res, ast.Call) and (A.call_name(res) or "").split(".")[-1] in ("switch", "where") and len(res.args) == 3:
-            cond, inside, outside = res.args
-            lits = []
-            for c in ast.walk(cond):
-                if isinstance(c, ast.Compare) and len(c.ops) == 1:
-                    lits.append(c)
-                if isinstance(c, ast.Call) and (A.call_name(c) or "").split(".")[-1] in ("ge", "le", "gt", "lt") and len(c.args) == 2:
-                    op = {"ge": ast.GtE, "le": ast.LtE, "gt": ast.Gt, "lt": ast.Lt}[(A.call_name(c) or "").split(".")[-1]]
-                    lits.append(ast.Compare(left=c.args[0], ops=[op()], comparators=[c.args[1]]))
-            lits = [lognorm(c) for c in lits]
-            lower = any(_bound(c, "value", "a", lower=True) for c in lits)
-            upper = any(_bound(c, "value", "b", lower=False) for c in lits)
-            conj = not any(isinstance(x, ast.BinOp) and isinstance(x.op, ast.BitOr) for x in ast.walk(cond)) and not any(isinstance(x, ast.Call) and (A.call_name(x) or "").endswith("or_") for x in ast.walk(cond))
-            ctx.check("C09-SUPP", fn, tag + ": -inf outside [a, b]", lower and upper and conj and _is_neg_inf(outside),
-                      "support test covers lower=%s upper=%s (conjunction=%s) and the outside value is `%s`" % (lower, upper, conj, A.unparse(outside)), key="logp%d:support" % k)
+            cond, br1, br2 = res.args
+            cn = A.nnf(_cmp_calls(lognorm(cond)))
+            inside_forms = [A.nnf_of_src(x) for x in ("(value >= a) & (value <= b)", "(value > a) & (value < b)", "(value >= a) & (value < b)", "(value > a) & (value <= b)")]
+            outside_forms = [("or", frozenset(_neg(k) for k in f[1])) for f in inside_forms]
+            if cn in inside_forms:
+                inside, outside, oks = br1, br2, True
+            elif cn in outside_forms:
+                inside, outside, oks = br2, br1, True
+            else:
+                inside, outside, oks = br1, br2, False
+            ctx.check("C09-SUPP", fn, tag + ": -inf outside [a, b]", oks and _is_neg_inf(outside),
+                      "support test `%s` is not a comparison of `value` itself with both bounds (joined so that a NaN or out-of-range value selects -inf), or the outside value is `%s`" % (A.unparse(cond)[:70], A.unparse(outside)[:30]), key="logp%d:support" % k)
         else:
             ctx.violate("C09-SUPP", fn, tag + ": -inf outside [a, b]", "the value returned by logp does not depend on comparisons of `value` with the bounds: it is finite outside the support", key="logp%d:support" % k)
             inside = res
@@ -125,6 +123,34 @@ def check_uniformlog(ctx):
         elif "uniform" in A.unparse(v):
             why += ": the inverse-CDF exponential is missing (draws are uniform in x, not in log x)"
         ctx.check(R, fn, tag + ": inverse CDF exp(u log(b/a) + log a)", ok, why, key="rng%d:form" % k)
+
+
+def _cmp_calls(e):
+    """pt.ge(x, y) / pt.and_(p, q) ... -> comparison / boolean operators"""
+    class T(ast.NodeTransformer):
+        def visit_Call(self, n):
+            self.generic_visit(n)
+            nm = (A.call_name(n) or "").split(".")[-1]
+            ops = {"ge": ast.GtE, "le": ast.LtE, "gt": ast.Gt, "lt": ast.Lt}
+            if nm in ops and len(n.args) == 2:
+                return ast.Compare(left=n.args[0], ops=[ops[nm]()], comparators=[n.args[1]])
+            if nm in ("and_", "bitwise_and", "logical_and") and len(n.args) == 2:
+                return ast.BinOp(left=n.args[0], op=ast.BitAnd(), right=n.args[1])
+            if nm in ("or_", "bitwise_or", "logical_or") and len(n.args) == 2:
+                return ast.BinOp(left=n.args[0], op=ast.BitOr(), right=n.args[1])
+            return n
+    return T().visit(A.clone(e))
+
+
+def _neg(lit):
+    return ("lit", not lit[1], lit[2])
+
+
+def _bit_to_bool(term):
+    """treat the canonical strings band(...) / bor(...) of tensor & and | as and / or over their comparison literals"""
+    if term[0] == "lit" and (term[2].startswith("band(") or term[2].startswith("bor(")):
+        return term   # handled by _split below
+    return term
 
 
 def _bound(c, val, bound, lower):
@@ -252,6 +278,29 @@ def check_wire(ctx):
     ctx.check(R, sv or fl, "default prior of v_i", okv, "out_pars[name] = %s" % (A.unparse(sv.value)[:100] if sv is not None else "missing"), key="l:v")
 
 
+def check_default(ctx):
+    R = "C09-WIRE"
+    fn = ctx.prog.func(PR, "JokerPrior.default", R)
+    table = [("default_nonlinear_prior", ["P_min", "P_max", "s", "model", "pars"]), ("default_linear_prior", ["sigma_K0", "P0", "sigma_v", "poly_trend", "model", "pars"]), ("cls", ["model", "poly_trend", "v0_offsets"])]
+    for callee, names in table:
+        gaps = A.forwarding_gaps(fn, callee, names)
+        ctx.check(R, fn, "JokerPrior.default calls %s once" % callee, len(gaps) == 1, "found %d calls" % len(gaps), key="default:call:" + callee, nontrivial=False)
+        for c, missing, wrong in gaps:
+            ctx.check(R, c, "JokerPrior.default forwards %s to %s" % (names, callee), not missing and not wrong,
+                      "not forwarded: %s; forwarded as something else: %s - the option given to JokerPrior.default is silently replaced by the callee's default" % (missing, {k: A.unparse(v) for k, v in wrong.items()}),
+                      key="default:fw:" + callee)
+    # defaults of the callee must not silently stand in for required inputs
+    dl = ctx.prog.func(PR, "default_linear_prior", R)
+    for nm in ("sigma_K0", "P0"):
+        d = A.param_default(dl, nm)
+        ctx.check(R, dl, "default_linear_prior has no built-in %s" % nm, d is not None and isinstance(d, ast.Constant) and d.value is None, "default %s=%s" % (nm, A.unparse(d) if d is not None else "required"), key="default:none:" + nm, nontrivial=False)
+    pd = A.param_default(fn, "P0")
+    ctx.check(R, fn, "documented default P0 = 1 year", pd is not None and canon(pd) == canon(parse("1 * u.year")), "P0 default %s" % (A.unparse(pd) if pd is not None else None), key="default:P0", nontrivial=False)
+    merged = [s for s in A.walk_local(fn) if isinstance(s, ast.Assign) and canon(s.targets[0]) == "pars" and isinstance(s.value, ast.Dict)]
+    okm = len(merged) == 1 and [canon(v) for v in merged[0].value.values] == ["nl_pars", "l_pars"] and all(k is None for k in merged[0].value.keys)
+    ctx.check(R, merged[0] if merged else fn, "nonlinear and linear defaults are merged into the prior", okm, "pars = %s" % (A.unparse(merged[0].value) if merged else None), key="default:merge", nontrivial=False)
+
+
 def check_sum(ctx):
     R = "C09-SUM"
     ctx.rule(R, "JokerPrior.sample draws exactly the selected variables with one pm.draw(..., random_seed=rng); column `name` of the result is the draw of variable `name` "
@@ -350,5 +399,6 @@ def run(ctx):
     check_fcm(ctx)
     check_kipping(ctx)
     check_wire(ctx)
+    check_default(ctx)
     check_sum(ctx)
     ctx.assume("densities and samplers of pymc / pytensor built-ins (Beta, Normal, angle) are as documented; pm.draw draws jointly from the model graph")
